@@ -16,6 +16,11 @@ pub fn workers() -> usize {
 }
 
 pub fn par_runs<R: Send, F: Fn(u64) -> R + Sync>(n: u64, f: F) -> Vec<R> {
+    // the determinism self-test runs every batch at a fraction of its size
+    let n = match std::env::var("VERIF_SCALE_DIV").ok().and_then(|s| s.parse::<u64>().ok()) {
+        Some(d) if d > 1 => (n / d).max(1),
+        _ => n,
+    };
     let next = AtomicU64::new(0);
     let results: Mutex<Vec<(u64, R)>> = Mutex::new(Vec::with_capacity(n as usize));
     let w = workers().max(1);
